@@ -276,6 +276,7 @@ func (i *interpreter) resetForPath() {
 	i.extState = make(map[string]interface{})
 	i.callDepth = 0
 	i.inInit = 0
+	i.sched = nil
 }
 
 // Package-level state is initialised once per worker and kept across paths
@@ -420,6 +421,10 @@ func runPath(in *interpreter, sol *solver, fn *ssa.Function, prefix []int, hr *h
 		call(in, nil, token.NoPos, fn, nil)
 		ended = true
 	}()
+	if in.sched != nil {
+		in.sched.killAll()
+		in.sched = nil
+	}
 	var sample map[string]string
 	if ended {
 		res, vals := sol.check("", st.inputTerms())
